@@ -70,7 +70,7 @@ impl TableProvider {
             log: Rc::new(RefCell::new(Vec::new())),
             polls: Cell::new(0),
             cancel: Cell::new(Cancel::Never),
-            poll_budget: Cell::new(2_000_000),
+            poll_budget: Cell::new(50_000),
             sched: None,
             probe: Cell::new(SortProbe::Off),
             probe_log: RefCell::new(Vec::new()),
